@@ -196,12 +196,16 @@ func vhC01Pairs(k int) ([]vhPgon, []vhPgon) {
 		return []vhPgon{vhRect(0, 0, 20, 20, true), vhRect(12, 12, 18, 18, false)}, []vhPgon{vhRect(1, 1, 5, 5, true)}
 	case 13: // Q a frame whose hole is away from P
 		return []vhPgon{vhRect(1, 1, 5, 5, true)}, []vhPgon{vhRect(0, 0, 20, 20, true), vhRect(12, 12, 18, 18, false)}
-	default: // P with an island inside its hole, Q over the outer ring only
+	case 14: // P with an island inside its hole, Q over the outer ring only
 		return []vhPgon{vhRect(0, 0, 20, 20, true), vhRect(6, 6, 18, 18, false), vhRect(10, 10, 14, 14, true)}, []vhPgon{vhRect(-2, 1, 3, 4, true)}
+	case 15: // self-crossing P whose two crossing edges become neighbours in the sweep only after a third edge of P between them has ended; Q to the right of the crossing
+		return []vhPgon{{{0, 0}, {10, 5}, {12, 5}, {12, 0}, {10, 0}, {0, 6}, {-1, 3}, {3, 3}}}, []vhPgon{vhRect(8, 2, 9, 3, true)}
+	default: // operands far apart (bounding boxes do not touch)
+		return []vhPgon{vhRect(0, 0, 2, 2, true)}, []vhPgon{vhRect(5, 5, 7, 7, true)}
 	}
 }
 
-const vhC01NPairs = 15
+const vhC01NPairs = 17
 
 func VH_C01_boolean_region_Q() {
 	pair := vChoose(0, vhC01NPairs-1)
@@ -283,6 +287,15 @@ func VH_C01_paths_api_Q() {
 		qq = []vhPgon{vhRect(1, 1, 3, 3, true), vhRect(4, 4, 6, 12, true), vhRect(8, -2, 12, 2, true)}
 	}
 	ps, qs := vhC01Paths(pp, vChoose(0, 2)), vhC01Paths(qq, vChoose(0, 2))
+	// the caller's view of its two slices: the same path objects with the same data afterwards
+	psElems, qsElems := append([]*Path{}, ps...), append([]*Path{}, qs...)
+	var psData, qsData [][]float64
+	for _, e := range ps {
+		psData = append(psData, vhCopyData(e.d))
+	}
+	for _, e := range qs {
+		qsData = append(qsData, vhCopyData(e.d))
+	}
 	op := vChoose(0, 3)
 	var r *Path
 	switch op {
@@ -295,6 +308,14 @@ func VH_C01_paths_api_Q() {
 	default:
 		r = ps.Not(qs)
 	}
+	same := len(ps) == len(psElems) && len(qs) == len(qsElems)
+	for i := 0; same && i < len(ps); i++ {
+		same = ps[i] == psElems[i] && vhSameData(ps[i].d, psData[i])
+	}
+	for i := 0; same && i < len(qs); i++ {
+		same = qs[i] == qsElems[i] && vhSameData(qs[i].d, qsData[i])
+	}
+	vAssert("C01.paths.callers_slices_unchanged", same)
 	vAssert("C01.paths.wellformed", vhStructWF(r))
 	p, q := vhPgonPath(pp), vhPgonPath(qq)
 	x, y := vNondetF64(), vNondetF64()
